@@ -320,6 +320,8 @@ def join(tokens, rng=None, mode='plain'):
     for t in tokens:
         if mode in ('emdash',) and t == '-' and rng.random() < 0.7:
             t = u'—'
+        elif mode == 'emdash' and t[0] in '0123456789.' and ('e-' in t or 'E-' in t) and rng.random() < 0.7:
+            t = t.replace('e-', u'e—').replace('E-', u'E—')      # the exponent sign of a number literal
         if mode in ('spaces', 'mixed') and len(t) > 1 and rng.random() < 0.3:
             # spaces inside a token (number, name, '||'): they are stripped before parsing
             k = rng.randint(1, len(t) - 1)
